@@ -8,7 +8,8 @@ RULE = ("PS: structure-aware generator (3 comment styles x UTF-8 / UTF-8+BOM / U
         "LF-only block, truncation, odd trailing byte, BOM flips, stray 0x0A bytes, invalid UTF-8, lone surrogates, trailing text, two blocks, "
         "near-marker lines, unknown style) plus signed-then-line-endings-converted scripts (every style x UTF-8 / UTF-8+BOM / UTF-16LE+BOM x whole "
         "file / block with / without the line break in front of it / only that line break converted to LF; the text in front of the block is "
-        "found by an independent scan and must survive byte for byte); ops: digest (hash stream, TextSize, SigSize), sign (MakePatch + real patch application + "
+        "found by an independent scan and must survive byte for byte; a marker line in CRLF form behind a bare LF must be refused "
+        "(err badsig, fix F-ps-eol)); ops: digest (hash stream, TextSize, SigSize), sign (MakePatch + real patch application + "
         "re-digest), resign (two rounds vs one), locate (VerifyPowershell line scan), realsign (signer module with real keys, two "
         "rounds, real verifier, every style x encoding), mutate (C02); C02 also gets digest ops on UTF-8 scripts with 2/3/4-byte characters, "
         "predicate ps_hashed_is_utf16 (imprint = SHA-256 of the UTF-16LE encoding of the text, computed by the check). Non-trivial = distinct op with a known style.")
@@ -120,7 +121,8 @@ def text_before_block(data, style):
 
 
 def _mixed_eol(data, style):
-    """identity of the known finding F-ps-eol: the marker line relic recognises (CRLF form) follows a line that does not end in CRLF"""
+    """the trigger of the repaired finding F-ps-eol: the marker line relic recognises (CRLF form) follows a line that does not end
+    in CRLF.  Since /repo 68f97c1 DigestPowershell refuses such a script (Relic.Props.C03.ps_bare_lf_before_block_refused)."""
     t, eol, _ = text_before_block(data, style)
     u16 = data[:2] == b"\xff\xfe"
     crlf = b"\r\0\n\0" if u16 else b"\r\n"
@@ -137,8 +139,8 @@ def predicate(prop, op, il, mres, tag):
         t, eol, t0 = text_before_block(inp, f[2])
         if not (out.startswith(t0) and len(out) > len(t0)):
             k = next((i for i in range(min(len(out), len(t0))) if out[i] != t0[i]), min(len(out), len(t0)))
-            return ("Relic.Props.C03.ps_payload_preserved / ps_text_before_block_preserved_partial",
-                    "script text unchanged in front of the signature block",
+            return ("Relic.Props.C03.ps_payload_preserved / ps_text_before_block_preserved (ps_cut_is_line_break)",
+                    "script text unchanged in front of the signature block" + (" (refused: err badsig)" if _mixed_eol(inp, f[2]) else ""),
                     "script text altered by signing: first difference at byte %d of %d (marker line ends in %s)" % (k, len(t0), eol))
     if il.startswith("crash") or il.startswith("not-run"):
         return ("Relic.Props.%s (ps)" % prop, mres, "implementation process died")
@@ -195,7 +197,6 @@ def predicate(prop, op, il, mres, tag):
 def matches_known(k, op, il, mres, tag):
     ident = k.get("identity", {})
     site = ident.get("site", "")
-    if site == "authenticode.DigestPowershell:eol-strip":
-        f = op.split()
-        return f[1] == "sign" and il.startswith("ok ") and il == mres and _mixed_eol(_b(f[3]), f[2])
+    # F-ps-eol (site authenticode.DigestPowershell:eol-strip) is fixed (/repo 68f97c1): no suppression any more; an implementation
+    # that signs a mixed-eol script is reported by the predicate above (and as a broken tie: the model refuses)
     return il.startswith("panic") and mres.startswith("panic") and site and site in il and site in mres
